@@ -154,6 +154,18 @@ def _nulls(run, P):
                                 if isinstance(lp, ast.For) and isinstance(lp.iter, ast.Attribute) \
                                         and lp.iter.attr == sl and dotted(lp.target) == a0.id:
                                     locs |= {t.id for t in s_.targets if isinstance(t, ast.Name)}
+                            # child = pending.pop() from a work list made from expr.<slot>
+                            for pp in ast.walk(h.node):
+                                if isinstance(pp, ast.Assign) and isinstance(pp.value, ast.Call) \
+                                        and isinstance(pp.value.func, ast.Attribute) \
+                                        and pp.value.func.attr in ("pop", "popleft") \
+                                        and any(isinstance(t, ast.Name) and t.id == a0.id for t in pp.targets):
+                                    wl = dotted(pp.value.func.value)
+                                    if wl and any(isinstance(d_, ast.Assign) and any(
+                                            isinstance(t, ast.Name) and t.id == wl for t in d_.targets)
+                                            and any(isinstance(y, ast.Attribute) and y.attr == sl
+                                                    for y in ast.walk(d_.value)) for d_ in ast.walk(h.node)):
+                                        locs |= {t.id for t in s_.targets if isinstance(t, ast.Name)}
                 # [c for c in map(self.rec, expr.<slot>) if not isinstance(c, NullASTNode)]
                 for comp in ast.walk(h.node):
                     if isinstance(comp, (ast.ListComp, ast.GeneratorExp)) and len(comp.generators) == 1:
@@ -181,6 +193,54 @@ def _nulls(run, P):
                    f"the constant False)")
 
 
+def sort_wrappers(f):
+    """nested helpers `def h(ids): return sorted(ids[, key=lambda e: (..., e)])`: a total
+    order on the ids (the element itself breaks every tie)"""
+    out = set()
+    for name, g_ in f.nested.items():
+        body = [s_ for s_ in func_body_stmts(g_.node)
+                if not (isinstance(s_, ast.Expr) and isinstance(s_.value, ast.Constant))]
+        if len(g_.params) != 1 or len(body) != 1 or not isinstance(body[0], ast.Return):
+            continue
+        v = body[0].value
+        if not (isinstance(v, ast.Call) and dotted(v.func) == "sorted" and len(v.args) == 1
+                and isinstance(v.args[0], ast.Name) and v.args[0].id == g_.params[0]):
+            continue
+        keys = [k for k in v.keywords if k.arg == "key"]
+        if any(k.arg not in ("key",) for k in v.keywords):
+            continue
+        if keys:
+            lam = keys[0].value
+            if not (isinstance(lam, ast.Lambda) and len(lam.args.args) == 1
+                    and isinstance(lam.body, ast.Tuple) and lam.body.elts
+                    and isinstance(lam.body.elts[-1], ast.Name)
+                    and lam.body.elts[-1].id == lam.args.args[0].arg):
+                continue
+        out.add(name)
+    return out
+
+
+class _Unfold(ast.NodeTransformer):
+    def __init__(self, names):
+        self.names = names
+
+    def visit_Call(self, node):
+        self.generic_visit(node)
+        if isinstance(node.func, ast.Name) and node.func.id in self.names and len(node.args) == 1:
+            return ast.copy_location(ast.Call(func=ast.Name(id="sorted", ctx=ast.Load()),
+                                              args=node.args, keywords=[]), node)
+        return node
+
+
+def unfold_sorts(f, node):
+    """a copy of *node* in which calls of the sort wrappers of *f* read sorted(<arg>)"""
+    import copy
+    names = sort_wrappers(f)
+    if not names:
+        return node
+    return ast.fix_missing_locations(_Unfold(names).visit(copy.deepcopy(node)))
+
+
 def _sorted(run, P):
     T = Taint(P, modules={MOD})
     T.run()
@@ -205,7 +265,7 @@ def _sorted(run, P):
                 and any(isinstance(w_, ast.While) and dotted(w_.test) == x.func.value.id
                         for w_ in ast.walk(f.node)):
             a = x.args[0]
-            ok = isinstance(a, ast.Call) and dotted(a.func) == "sorted"
+            ok = isinstance(a, ast.Call) and (dotted(a.func) == "sorted" or dotted(a.func) in sort_wrappers(f))
             n += 1
             run.ob("C05.sorted", f, x, ok,
                    why="ids pushed in set order make the emitted statement order "
@@ -286,7 +346,7 @@ def _topo_wrap(run, P):
         i2 = src.index(f"{visiting}.add({node})")
         i3 = [i for i, s_ in enumerate(src) if s_.startswith(f"{stack}.extend(")][0]
         exp_ok = i1 < i3 and i2 < i3 and has(
-            f"{stack}.extend(sorted(V_map[{node}].depends_on))", exp[i3])
+            f"{stack}.extend(sorted(V_map[{node}].depends_on))", unfold_sorts(f, exp[i3]))
     except (ValueError, IndexError):
         exp_ok = False
     run.ob("C05.topo", f, w, exp_ok,
@@ -302,7 +362,7 @@ def _topo_wrap(run, P):
              and dotted(x.func) == f"{stack}.extend" and not any(
                  x is y for y in ast.walk(w))]
     seed_ok = ph is not None and len(seeds) == 1 and seeds[0].args \
-        and norm(seeds[0].args[0]) in (f"sorted({ph}.depends_on)", f"natsorted({ph}.depends_on)")
+        and norm(unfold_sorts(f, seeds[0].args[0])) in (f"sorted({ph}.depends_on)", f"natsorted({ph}.depends_on)")
     run.ob("C05.topo", f, seeds[0] if seeds else f.node, seed_ok,
            construct=f"the stack is seeded with sorted(<phase>.depends_on): every root, unfiltered"
                      + (f" (found: {norm(seeds[0].args[0], 80)})" if seeds and seeds[0].args and not seed_ok else ""),
